@@ -160,7 +160,7 @@ def _json_value(rng, depth=0):
     if t == "int":
         return rng.randint(-5, 1 << 33)
     if t == "float":
-        return rng.choice([0.5, 1.25, -3.75, 1e3])
+        return rng.choice([0.5, 1.25, -3.75, 1e3, 1e3, float("inf"), float("-inf")])
     if t == "str" and rng.random() < 0.25:
         # valid non-ASCII text and (legal JSON) escaped lone surrogates
         return rng.choice(["caf\u00e9", "\u65e5\u672c\u8a9e", "\u00b5s \u00b1 1", "x\ud83dy", "\U0001f600 ok", "\u2028"])
@@ -200,6 +200,12 @@ def gen_builtin_json(rng):
             text = t2
         except UnicodeEncodeError:
             pass
+    if "Infinity" in text:
+        # the legal spelling of an out-of-range number (reads as inf, is written back as Infinity)
+        import re
+        t3 = re.sub(r'(?<![\w"])(-?)Infinity(?![\w"])', r"\g<1>1e999", text)
+        if json.loads(t3) == v:
+            text = t3
     raw = text.encode("utf-8") + b"\x00" * rng.choice([0, 0, 1, 3])
     return raw.hex(), v
 
